@@ -172,12 +172,18 @@ package expressions
 //@ requires params: forall(k, 0, len(params), params[k] != nil)
 //@ assigns *
 //@ ghost nargs Int = 0
+//@ ghost recv Val = nil
+//@ ghost last Val = nil
+//@ at call receiver #1: recv = result.Interface()
+//@ at call param #*: last = result.Interface()
+//@ at call append #2 before assert argValue: arg1[0] == last
+//@ at call Call #1 before assert receiverArg: arg1[0] == recv
 //@ at call receiver #1 before assert receiverFirst: nargs == 0 && arg0 == box(ctx, *expressions.context) && has(ctx.Config.filters, name)
 //@ at call receiver #1: nargs = 1
 //@ at call param #* before assert inOrder: nargs == 1 + i && arg0 == box(ctx, *expressions.context)
 //@ at call param #*: nargs = nargs + 1
 //@ at call Call #1 before assert allArgs: nargs == 1 + len(params) && len(arg1) == nargs && arg0 == reflect.ValueOf(mapget(ctx.Config.filters, name))
 //@ loop 1 invariant frame: @evalframe
-//@ loop 1 invariant count: nargs == 1 + _i && len(args) == nargs && fresh(args) && has(ctx.Config.filters, name)
+//@ loop 1 invariant count: nargs == 1 + _i && len(args) == nargs && fresh(args) && args[0] == recv && has(ctx.Config.filters, name)
 //@ ensures known: has(ctx.Config.filters, name)
 //@ ensures cells: @evalframe
